@@ -5,7 +5,7 @@
     Models: KeyDefs.v (cache keys, memo cache), GraphDefs.v (weak equivalence lists, the search,
     the construction API).  Vocabulary of the statements: EquivSpec.v. *)
 From Coq Require Import List Arith Bool NArith Relations.
-From LC Require Import KeyDefs GraphDefs EquivSpec KeyProofs GraphProofs EquivSeqProofs.
+From LC Require Import KeyDefs GraphDefs EquivSpec KeyProofs GraphProofs EquivSeqProofs EquivRound5Proofs.
 Import ListNotations.
 
 (** *** 1. "regardless of where the objects happen to live in memory": the cache key *)
@@ -276,6 +276,38 @@ Example C18_seq_nonvacuous :
   symmetric ex_seq_graph /\ bounded ex_seq_graph 4 /\ in_range 4 ex_seq.
 Proof. exact EquivSeqProofs.seq_nonvacuous. Qed.
 Print Assumptions C18_seq_nonvacuous.
+
+(** *** 9. Structural laws of the memo cache, for EVERY key function (injective or not), every memoised
+    function and every starting cache (std::map with find-before-emplace). *)
+
+(** Composition: a history of queries cut anywhere is the first part followed by the second part run on the
+    cache the first part left. *)
+Theorem C18_cache_run_app :
+  forall (V K R : Type) (keqb : K -> K -> bool) (key : V -> V -> K) (compute : V -> V -> R)
+         (qs1 qs2 : list (V * V)) (c : cache K R),
+    run keqb key compute c (qs1 ++ qs2) =
+    (fst (run keqb key compute c qs1) ++ fst (run keqb key compute (snd (run keqb key compute c qs1)) qs2),
+     snd (run keqb key compute (snd (run keqb key compute c qs1)) qs2)).
+Proof. exact EquivRound5Proofs.run_app. Qed.
+Print Assumptions C18_cache_run_app.
+
+(** An entry once stored answers the same for ever: no later query overwrites or shadows it. *)
+Theorem C18_cache_entries_stable :
+  forall (V K R : Type) (keqb : K -> K -> bool), (forall k k' : K, keqb k k' = true <-> k = k') ->
+  forall (key : V -> V -> K) (compute : V -> V -> R) (qs : list (V * V)) (c : cache K R) (k : K) (r : R),
+    lookup keqb k c = Some r -> lookup keqb k (snd (run keqb key compute c qs)) = Some r.
+Proof. exact EquivRound5Proofs.run_entries_stable. Qed.
+Print Assumptions C18_cache_entries_stable.
+
+(** The association list stays a map (no key twice) and grows by at most one entry per query. *)
+Theorem C18_cache_keys_nodup :
+  forall (V K R : Type) (keqb : K -> K -> bool), (forall k k' : K, keqb k k' = true <-> k = k') ->
+  forall (key : V -> V -> K) (compute : V -> V -> R) (qs : list (V * V)) (c : cache K R),
+    NoDup (map fst c) ->
+    NoDup (map fst (snd (run keqb key compute c qs))) /\
+    length c <= length (snd (run keqb key compute c qs)) <= length c + length qs.
+Proof. exact EquivRound5Proofs.run_keys_nodup. Qed.
+Print Assumptions C18_cache_keys_nodup.
 
 (** Non-vacuity: chain 0-1-2, 3 isolated, 4 linked then destroyed; too little fuel is [None], not [false]. *)
 Example C18_nonvacuous :
